@@ -363,6 +363,13 @@ Proof.
   cbn [filter]. rewrite Hok. reflexivity.
 Qed.
 
+Theorem basename_spec (dir name : string) :
+  no_chr "/" name = true -> path_part_ok name = true ->
+  basename (dir ++ "/" ++ name) = name /\ basename name = name.
+Proof.
+  intros H1 H2. split; [exact (basename_dir_name dir name H1 H2) | exact (basename_plain name H1 H2)].
+Qed.
+
 (* the .in text opens with the read section naming Path(pqrpath).name *)
 Theorem dump_apbs_names_pqr {A : Type} (fmt4 : A -> string) (pqrpath : string) (sz : sizing (A:=A)) :
   exists rest,
@@ -510,14 +517,21 @@ Proof.
     cbn [sub add QA]. rewrite !Qred_correct. split; lra.
 Qed.
 
+Lemma step_atom_box (st st' : pstate (A:=Q)) h x y z q r :
+  step QA st (EvAtom h (x, y, z, q, r)) = Ok st' ->
+  box st' = Some (acc_box QA (box st) (x, y, z) r).
+Proof. unfold step. intros H; injection H as <-. cbn [box]. destruct h; reflexivity. Qed.
+
+Lemma count_box (st : pstate (A:=Q)) h : box (count st h) = box st.
+Proof. destruct h; reflexivity. Qed.
+
 Lemma step_grows st ev st' lo hi :
   step QA st ev = Ok st' -> inbox (box st) lo hi -> inbox (box st') lo hi.
 Proof.
-  destruct ev as [|h|h [[[[x y] z] q] r]|h]; cbn [step].
-  - intros H; injection H as <-. auto.
-  - intros H; injection H as <-. destruct h; auto.
-  - intros H; injection H as <-. cbn [box]. intros Hb. apply acc_box_grows.
-    destruct h; exact Hb.
+  destruct ev as [|h|h [[[[x y] z] q] r]|h].
+  - cbn [step]. intros H; injection H as <-. auto.
+  - cbn [step]. intros H; injection H as <-. rewrite count_box. auto.
+  - intros H Hb. rewrite (step_atom_box _ _ _ _ _ _ _ _ H). apply acc_box_grows. exact Hb.
   - discriminate.
 Qed.
 
@@ -541,12 +555,8 @@ Proof.
   cbn [run_events] in Hrun.
   destruct (step QA st e) as [s1|] eqn:Es; cbn [bind] in Hrun; [|discriminate].
   destruct Hin as [-> | Hin].
-  - cbn [step] in Es. injection Es as <-.
-    assert (Hb : inbox (box (mkState (gotatom (count QA st h)) (gothet (count QA st h))
-                                     (add Q QA (charge (count QA st h)) q)
-                                     (Some (acc_box QA (box (count QA st h)) (x, y, z) r))))
-                       (map3 (fun ci => ci - r) (x, y, z)) (map3 (fun ci => ci + r) (x, y, z))).
-    { cbn [box]. apply acc_box_has. }
+  - assert (Hb : inbox (box s1) (map3 (fun ci => ci - r) (x, y, z)) (map3 (fun ci => ci + r) (x, y, z))).
+    { rewrite (step_atom_box _ _ _ _ _ _ _ _ Es). apply acc_box_has. }
     destruct (run_grows _ _ _ _ _ Hrun Hb) as (mn & mx & E & H).
     exists mn, mx. split; [exact E|]. intros i. specialize (H i). rewrite !ax_map3 in H. exact H.
   - exact (IH _ Hrun h x y z q r Hin).
@@ -579,18 +589,17 @@ Proof.
   - intros H; injection H as <-. reflexivity.
   - assert (Hrest : forall s1, box s1 = box st -> atoms_inside (box s1) evs).
     { intros s1 E. rewrite E. intros h x y z q r Hi. apply (Hin h x y z q r). now right. }
-    destruct e as [|h|h [[[[x y] z] q] r]|h]; cbn [step bind].
-    + intros H. rewrite (IH st (Hrest st eq_refl) H). reflexivity.
-    + intros H. assert (E : box (count QA st h) = box st) by (destruct h; reflexivity).
-      rewrite (IH _ (Hrest _ E) H). exact E.
-    + destruct (Hin h x y z q r (or_introl eq_refl)) as (mn & mx & Eb & Hc).
-      assert (E : box (mkState (gotatom (count QA st h)) (gothet (count QA st h))
-                               (add Q QA (charge (count QA st h)) q)
-                               (Some (acc_box QA (box (count QA st h)) (x, y, z) r))) = box st).
-      { cbn [box]. replace (box (count QA st h)) with (box st) by (destruct h; reflexivity).
-        rewrite Eb. rewrite (acc_box_idem _ _ _ _ Hc). reflexivity. }
-      intros H. rewrite (IH _ (Hrest _ E) H). exact E.
-    + discriminate.
+    destruct (step QA st e) as [s1|] eqn:Es; cbn [bind]; [|discriminate].
+    intros H.
+    assert (E : box s1 = box st).
+    { destruct e as [|h|h [[[[x y] z] q] r]|h].
+      - cbn [step] in Es. injection Es as <-. reflexivity.
+      - cbn [step] in Es. injection Es as <-. apply count_box.
+      - rewrite (step_atom_box _ _ _ _ _ _ _ _ Es).
+        destruct (Hin h x y z q r (or_introl eq_refl)) as (mn & mx & Eb & Hc).
+        rewrite Eb, (acc_box_idem _ _ _ _ Hc). reflexivity.
+      - discriminate. }
+    rewrite (IH _ (Hrest _ E) H). exact E.
 Qed.
 
 Theorem double_parse_same_box evs st1 st2 :
@@ -620,4 +629,266 @@ Proof.
   destruct (boxes_contain p mn mx i Hc Hf) as [[F1 F2] [C1 C2]].
   destruct (Hm i) as [M1 M2].
   repeat split; lra.
+Qed.
+
+(* ---- set_smallest terminates ----------------------------------------------- *)
+
+(* the entry is (a python number equal to) 32k+1 with k >= 0 *)
+Definition rep (n : pynum (A:=Q)) (k : Z) : Prop :=
+  toA QA n == inject_Z (32 * k + 1) /\ (0 <= k)%Z.
+
+Lemma reduce_eq (n : Q) : reduce QA n == n - 32.
+Proof.
+  unfold reduce, one. cbn [add sub mul div ofZ QA]. rewrite !Qred_correct. qconst. field.
+Qed.
+
+Lemma rep_reduce (v : Q) (k : Z) :
+  v == inject_Z (32 * k + 1) -> (0 <= k)%Z ->
+  (leb QA (reduce QA v) (zero QA) = true /\ k = 0%Z) \/
+  (leb QA (reduce QA v) (zero QA) = false /\ rep (PFloat (reduce QA v)) (k - 1)).
+Proof.
+  intros Hv Hk. unfold leb, zero. cbn [ltb ofZ QA].
+  assert (E : reduce QA v == inject_Z (32 * (k - 1) + 1)).
+  { rewrite reduce_eq, Hv. rewrite !inject_Z_plus, !inject_Z_mult.
+    change (inject_Z (k - 1)) with (inject_Z (k + -1)). rewrite inject_Z_plus.
+    change (inject_Z 32) with (32 # 1). change (inject_Z 1) with (1 # 1).
+    change (inject_Z (-1)) with (-1 # 1). lra. }
+  destruct (Qltb (inject_Z 0) (reduce QA v)) eqn:L; cbn [negb].
+  - right. split; [reflexivity|]. apply Qltb_lt in L. rewrite E in L.
+    rewrite <- Zlt_Qlt in L. split; [exact E | lia].
+  - left. split; [reflexivity|]. apply Qltb_ge in L. rewrite E in L.
+    rewrite <- Zle_Qle in L. lia.
+Qed.
+
+Ltac conj_fin :=
+  repeat match goal with |- _ /\ _ => split end;
+  try assumption; try (split; assumption); try lia.
+
+Lemma shrink_spec (a b c : pynum (A:=Q)) (ka kb kc : Z) :
+  rep a ka -> rep b kb -> rep c kc ->
+  match shrink QA (a, b, c) with
+  | Err e => e = ErrCeiling
+  | Ok (a', b', c') =>
+      exists ka' kb' kc', rep a' ka' /\ rep b' kb' /\ rep c' kc' /\
+        (ka' <= ka /\ kb' <= kb /\ kc' <= kc /\ ka' + kb' + kc' = ka + kb + kc - 1)%Z
+  end.
+Proof.
+  intros [Ha Pa] [Hb Pb] [Hc Pc]. unfold shrink.
+  destruct (eqbA QA (toA QA a) _).
+  - destruct (rep_reduce _ _ Ha Pa) as [[-> _] | [-> R]]; [reflexivity|].
+    exists (ka - 1)%Z, kb, kc. conj_fin.
+  - destruct (eqbA QA (toA QA b) _).
+    + destruct (rep_reduce _ _ Hb Pb) as [[-> _] | [-> R]]; [reflexivity|].
+      exists ka, (kb - 1)%Z, kc. conj_fin.
+    + destruct (rep_reduce _ _ Hc Pc) as [[-> _] | [-> R]]; [reflexivity|].
+      exists ka, kb, (kc - 1)%Z. conj_fin.
+Qed.
+
+Lemma smallest_spec (fuel : nat) (ceil : Q) (a b c : pynum (A:=Q)) (ka kb kc : Z) :
+  rep a ka -> rep b kb -> rep c kc ->
+  (Z.to_nat (ka + kb + kc) < fuel)%nat ->
+  match smallest QA fuel ceil (a, b, c) with
+  | Err e => e = ErrCeiling
+  | Ok (a', b', c') =>
+      (exists ka' kb' kc', rep a' ka' /\ rep b' kb' /\ rep c' kc' /\
+         (ka' <= ka /\ kb' <= kb /\ kc' <= kc)%Z) /\
+      mem_mb QA (a', b', c') < ceil
+  end.
+Proof.
+  revert a b c ka kb kc; induction fuel as [|f IH]; intros a b c ka kb kc Ra Rb Rc Hf; [lia|].
+  cbn [smallest]. destruct (ltb Q QA (mem_mb QA (a, b, c)) ceil) eqn:Em.
+  - split; [exists ka, kb, kc; conj_fin|].
+    apply Qltb_lt. exact Em.
+  - pose proof (shrink_spec a b c ka kb kc Ra Rb Rc) as Hs.
+    destruct (shrink QA (a, b, c)) as [[[a' b'] c']|e]; cbn [bind]; [|exact Hs].
+    destruct Hs as (ka' & kb' & kc' & Ra' & Rb' & Rc' & La & Lb & Lc & Hsum).
+    assert (Hf' : (Z.to_nat (ka' + kb' + kc') < f)%nat).
+    { destruct Ra as [_ ?], Rb as [_ ?], Rc as [_ ?], Ra' as [_ ?], Rb' as [_ ?], Rc' as [_ ?]. lia. }
+    pose proof (IH a' b' c' ka' kb' kc' Ra' Rb' Rc' Hf') as H.
+    destruct (smallest QA f ceil (a', b', c')) as [[[a2 b2] c2]|e]; [|exact H].
+    destruct H as [(k1 & k2 & k3 & R1 & R2 & R3 & L1 & L2 & L3) Hm].
+    split; [|exact Hm]. exists k1, k2, k3. conj_fin.
+Qed.
+
+Lemma grid_ok_rep (n : Z) : grid_ok n -> rep (PInt n) ((n - 1) / 32).
+Proof.
+  intros [(k & -> & Hk) _]. replace ((32 * k + 1 - 1) / 32)%Z with k.
+  - split; [reflexivity | lia].
+  - replace (32 * k + 1 - 1)%Z with (k * 32)%Z by lia. now rewrite Z.div_mul.
+Qed.
+
+(* the loop ends within the fuel computed from ngrid; the only exception is the
+   code's own ValueError; the result entries are 32k+1, not above ngrid, and fit *)
+Theorem smallest_terminates (p : params (A:=Q)) (mn mx : vec3 Q) :
+  let ng := ngrid_of QA p mn mx in
+  match smallest QA (smallest_fuel ng) (p_gmemceil p) (map3 PInt ng) with
+  | Err e => e = ErrCeiling
+  | Ok ns =>
+      (forall i, exists k : Z, (0 <= k)%Z /\ toA QA (ax i ns) == inject_Z (32 * k + 1) /\
+                               (32 * k + 1 <= ax i ng)%Z) /\
+      mem_mb QA ns < p_gmemceil p
+  end.
+Proof.
+  cbv zeta. pose proof (ngrid_of_ok QA p mn mx) as Hok.
+  destruct (ngrid_of QA p mn mx) as [[a b] c].
+  pose proof (Hok AX) as Ha. pose proof (Hok AY) as Hb. pose proof (Hok AZ) as Hc. cbn [ax] in Ha, Hb, Hc.
+  cbn [map3 smallest_fuel].
+  pose proof (smallest_spec (S (S (Z.to_nat ((a - 1) / 32 + (b - 1) / 32 + (c - 1) / 32))))
+                (p_gmemceil p) _ _ _ _ _ _ (grid_ok_rep _ Ha) (grid_ok_rep _ Hb) (grid_ok_rep _ Hc)) as H.
+  specialize (H ltac:(lia)).
+  destruct (smallest QA _ _ _) as [[[a' b'] c']|e]; [|exact H].
+  destruct H as [(k1 & k2 & k3 & [R1 P1] & [R2 P2] & [R3 P3] & L1 & L2 & L3) Hm].
+  split; [|exact Hm].
+  destruct Ha as [(ja & Ea & _) _], Hb as [(jb & Eb & _) _], Hc as [(jc & Ec & _) _].
+  assert (Da : ((a - 1) / 32 = ja)%Z) by (subst a; replace (32 * ja + 1 - 1)%Z with (ja * 32)%Z by lia; apply Z.div_mul; lia).
+  assert (Db : ((b - 1) / 32 = jb)%Z) by (subst b; replace (32 * jb + 1 - 1)%Z with (jb * 32)%Z by lia; apply Z.div_mul; lia).
+  assert (Dc : ((c - 1) / 32 = jc)%Z) by (subst c; replace (32 * jc + 1 - 1)%Z with (jc * 32)%Z by lia; apply Z.div_mul; lia).
+  intros [| |]; cbn [ax]; [exists k1 | exists k2 | exists k3]; repeat split; try assumption; lia.
+Qed.
+
+(* ---- memory figures ---------------------------------------------------------- *)
+
+Lemma mem_mb_ints (a b c : Z) :
+  mem_mb QA (PInt a, PInt b, PInt c) == 200 * inject_Z (a * b * c) / 1024 / 1024.
+Proof.
+  unfold mem_mb. cbn [toA add sub mul div ofZ QA]. rewrite !Qred_correct.
+  rewrite !inject_Z_mult. qconst. field.
+Qed.
+
+(* parallel solve needed => Psize.__str__ raises (':d' applied to a float) *)
+Theorem report_parallel_raises (p : params (A:=Q)) (st : pstate (A:=Q)) (sz : sizing (A:=Q)) :
+  set_all QA p st = Ok sz -> (0 < gotatom st)%Z ->
+  p_gmemceil p < mem_mb QA (map3 PInt (s_ngrid sz)) ->
+  report QA p st sz = Err ErrFmtD.
+Proof.
+  intros Hset Hg Hm.
+  destruct (set_all_fields _ _ _ _ Hset) as (mn & mx & _ & _ & _ & _ & _ & En & Es & _).
+  apply report_fmt_conflict.
+  - rewrite <- En in Es. apply (smallest_first_float QA) in Es; [exact Es|].
+    cbn [ltb QA]. apply Qltb_ge. lra.
+  - apply Z.ltb_lt. exact Hg.
+  - unfold gtb. cbn [ltb QA]. apply Qltb_lt. exact Hm.
+Qed.
+
+(* the figure that is reported is the formula for the grid it is reported with,
+   and that grid is ngrid (the sequential branch is the only one that prints) *)
+Theorem mem_estimate (p : params (A:=Q)) (st : pstate (A:=Q)) (sz : sizing (A:=Q)) (m : mem_report (A:=Q)) :
+  set_all QA p st = Ok sz -> report QA p st sz = Ok (Some m) ->
+  r_parallel m = false /\ r_grid m = map3 PInt (s_ngrid sz) /\
+  let '(nx, ny, nz) := s_ngrid sz in
+  r_est_mb m == 200 * inject_Z (nx * ny * nz) / 1024 / 1024 /\
+  r_per_proc_mb m == 200 * inject_Z (nx * ny * nz) / 1024 / 1024 /\
+  r_est_mb m <= p_gmemceil p.
+Proof.
+  intros Hset Hr.
+  destruct (report_figures QA p st sz m Hr) as (E1 & E2 & E3 & E4).
+  assert (Hg : (0 < gotatom st)%Z).
+  { unfold report in Hr. destruct (0 <? gotatom st)%Z eqn:E; [now apply Z.ltb_lt | discriminate]. }
+  destruct (r_parallel m) eqn:Ep.
+  - symmetry in E4. unfold gtb in E4. cbn [ltb QA] in E4. apply Qltb_lt in E4.
+    rewrite (report_parallel_raises p st sz Hset Hg E4) in Hr. discriminate.
+  - split; [reflexivity|]. split; [exact E3|].
+    symmetry in E4. unfold gtb in E4. cbn [ltb QA] in E4. apply Qltb_ge in E4.
+    rewrite E1, E2, E3. destruct (s_ngrid sz) as [[nx ny] nz]. cbn [map3] in *.
+    rewrite (mem_mb_ints nx ny nz) in *. repeat split; try reflexivity. exact E4.
+Qed.
+
+(* sequential case: the report is produced *)
+Theorem report_sequential_ok (p : params (A:=Q)) (st : pstate (A:=Q)) (sz : sizing (A:=Q)) :
+  (0 < gotatom st)%Z -> mem_mb QA (map3 PInt (s_ngrid sz)) <= p_gmemceil p ->
+  exists m, report QA p st sz = Ok (Some m).
+Proof.
+  intros Hg Hm. unfold report. apply Z.ltb_lt in Hg. rewrite Hg.
+  unfold gtb. cbn [ltb QA]. apply Qltb_ge in Hm. rewrite Hm. eexists. reflexivity.
+Qed.
+
+(* ---- whole-line statement for separated fields, and the glued-field witness -- *)
+
+Local Open Scope string_scope.
+
+Lemma prefix_of_app (p s r : string) :
+  (String.length p <= String.length s)%nat -> prefix_of p (s ++ r) = prefix_of p s.
+Proof.
+  revert s; induction p as [|a p IH]; intros s Hl; [reflexivity|].
+  destruct s as [|b s]; cbn [String.length] in Hl; [lia|].
+  cbn [append prefix_of]. rewrite IH by lia. reflexivity.
+Qed.
+
+Theorem parse_line_separated {A : Type} (pfloat : string -> option A)
+  (head : string) (a0 a1 a2 a3 a4 : nat) (t0 t1 t2 t3 t4 trail : string) (x y z q r : A) :
+  String.length head = 30%nat -> is_coord_line head = true ->
+  clean_tok t0 = true -> clean_tok t1 = true -> clean_tok t2 = true ->
+  clean_tok t3 = true -> clean_tok t4 = true ->
+  ((1 <= a1)%nat \/ starts_dash t1 = true) -> ((1 <= a2)%nat \/ starts_dash t2 = true) ->
+  ((1 <= a3)%nat \/ starts_dash t3 = true) -> ((1 <= a4)%nat \/ starts_dash t4 = true) ->
+  all_chars is_ws trail = true ->
+  pfloat t0 = Some x -> pfloat t1 = Some y -> pfloat t2 = Some z ->
+  pfloat t3 = Some q -> pfloat t4 = Some r ->
+  parse_line pfloat
+    (head ++ repeat_char sp a0 ++ t0 ++ repeat_char sp a1 ++ t1 ++ repeat_char sp a2 ++ t2 ++
+     repeat_char sp a3 ++ t3 ++ repeat_char sp a4 ++ t4 ++ trail)
+  = EvAtom (negb (prefix_of "ATOM" head)) (x, y, z, q, r).
+Proof.
+  intros Hh Hc C0 C1 C2 C3 C4 S1 S2 S3 S4 Ht P0 P1 P2 P3 P4.
+  unfold parse_line.
+  rewrite (words_separated head a0 a1 a2 a3 a4 t0 t1 t2 t3 t4 trail Hh C0 C1 C2 C3 C4 S1 S2 S3 S4 Ht).
+  rewrite !prefix_of_app by (rewrite Hh; cbn; lia).
+  unfold is_coord_line in Hc. rewrite Hc. rewrite P0, P1, P2, P3, P4. reflexivity.
+Qed.
+
+(* Full statement (fails): every atom line written in the fixed-column layout of
+   Atom.get_pqr_string is measured.  Witness: y = 1000.000 fills its 8 columns,
+   so x and y are one word, only 4 words remain, and the atom is counted but
+   silently not measured - whatever float() does. *)
+Theorem fixed_columns_refuted :
+  exists head xs ys zs qs rs : string,
+    String.length head = 30%nat /\ prefix_of "ATOM" head = true /\
+    clean_tok (strip xs) = true /\ clean_tok (strip ys) = true /\ clean_tok (strip zs) = true /\
+    clean_tok qs = true /\ clean_tok rs = true /\
+    String.length xs = 8%nat /\ String.length ys = 8%nat /\ String.length zs = 8%nat /\
+    forall (A : Type) (pfloat : string -> option A),
+      parse_line pfloat (head ++ pqr_tail xs ys zs qs rs) = EvCount false.
+Proof.
+  exists "ATOM      2  CA  ALA     2    ", "  12.345", "1000.000", "   5.000", "0.1000", "1.5000".
+  repeat split.
+Qed.
+
+Local Close Scope string_scope.
+
+(* Full statement (fails): for every structure Psize.__str__ reports a memory
+   figure.  Witness: two atoms 100 A apart need a parallel solve. *)
+Theorem report_parallel_refuted :
+  exists (p : params (A:=Q)) (evs : list (event (A:=Q))) (st : pstate (A:=Q)) (sz : sizing (A:=Q)),
+    run_events QA (init_state QA) evs = Ok st /\ set_all QA p st = Ok sz /\
+    (0 < gotatom st)%Z /\ report QA p st sz = Err ErrFmtD.
+Proof.
+  pose (p := mkP (17 # 10) 20 (1 # 2) 200 400 (1 # 10) (1 # 4)).
+  pose (evs := [EvAtom false (0, 0, 0, 1 # 10, 3 # 2); EvAtom false (100, 100, 100, 1 # 10, 3 # 2)] : list (event (A:=Q))).
+  destruct (run_events QA (init_state QA) evs) as [st|] eqn:E1; [|vm_compute in E1; discriminate].
+  destruct (set_all QA p st) as [sz|] eqn:E2.
+  - exists p, evs, st, sz. split; [exact E1|]. split; [exact E2|].
+    vm_compute in E1. injection E1 as <-. vm_compute in E2. injection E2 as <-.
+    split; [reflexivity | vm_compute; reflexivity].
+  - vm_compute in E1. injection E1 as <-. vm_compute in E2. discriminate.
+Qed.
+
+(* non-vacuity: a concrete run where every hypothesis used above holds and the
+   results are the ones the real code prints (33^3 grid, sequential, 6.854 MB) *)
+Example nonvacuous :
+  let p := mkP (17 # 10) 20 (1 # 2) 200 400 (1 # 10) (1 # 4) in
+  let evs := [EvAtom false (0, 0, 0, 1 # 10, 3 # 2); EvCount false; EvSkip;
+              EvAtom true (10, 10, 10, 1 # 10, 3 # 2)] : list (event (A:=Q)) in
+  exists st sz m,
+    run_events QA (init_state QA) evs = Ok st /\ set_all QA p st = Ok sz /\
+    report QA p st sz = Ok (Some m) /\
+    1 <= p_cfac p /\ 0 <= p_fadd p /\
+    gotatom st = 2%Z /\ gothet st = 1%Z /\
+    box st = Some ((-3 # 2, -3 # 2, -3 # 2), (23 # 2, 23 # 2, 23 # 2)) /\
+    s_ngrid sz = (33, 33, 33)%Z /\ s_center sz = (5, 5, 5) /\
+    s_fine sz = (221 # 10, 221 # 10, 221 # 10) /\ s_coarse sz = (221 # 10, 221 # 10, 221 # 10) /\
+    s_nfocus sz = 2%Z /\ r_est_mb m = 898425 # 131072.
+Proof.
+  cbv zeta. eexists _, _, _.
+  split; [vm_compute; reflexivity|]. split; [vm_compute; reflexivity|].
+  split; [vm_compute; reflexivity|]. vm_compute. intuition discriminate.
 Qed.
